@@ -57,7 +57,8 @@ DelCount(lo, hi, a, n) == Cardinality({k \in lo..hi : k >= a /\ k < a + n})
 DelRect(x, ax, a, n) == LET before == DelCount(1, Lo(x, ax) - 1, a, n)
                             within == DelCount(Lo(x, ax), Hi(x, ax), a, n)
                         IN WithSpan(x, ax, Lo(x, ax) - before, Hi(x, ax) - before - within)
-DelCuts(x, ax, a, n) == DelCount(Lo(x, ax), Hi(x, ax), a, n) > 0     \* the deletion removes part of x
+\* the deletion removes part of x but not all of it (a rectangle whose rows or columns are all deleted simply disappears)
+DelCuts(x, ax, a, n) == LET within == DelCount(Lo(x, ax), Hi(x, ax), a, n) IN within > 0 /\ within < Hi(x, ax) - Lo(x, ax) + 1
 Survives(x) == x[1] <= x[3] /\ x[2] <= x[4] /\ Big(x)
 InsMerges(ms, ax, a, n) == {InsRect(x, ax, a, n) : x \in ms}
 DelMerges(ms, ax, a, n) == {y \in {DelRect(x, ax, a, n) : x \in ms} : Survives(y)}
@@ -113,9 +114,11 @@ OutsideUntouched == [][LastEv.op = "merge" =>
                        \A i \in 1..NR, j \in 1..NC : ~IsPlaceholder(i, j, merges') => grid'[i][j] = grid[i][j]]_vars
 \* rectangles keep their area under edits that do not cut them (they only move)
 Area(x) == (x[3] - x[1] + 1) * (x[4] - x[2] + 1)
+\* (a deletion may also remove rectangles altogether: those all of whose rows, or columns, are deleted)
 MovesOnly == [][LastEv.op \in {"addrow", "addcol", "delrow", "delcol"} /\ ~LastEv.cut =>
-                 /\ Cardinality(merges') = Cardinality(merges)
-                 /\ {Area(x) : x \in merges'} = {Area(x) : x \in merges}]_vars
+                 /\ Cardinality(merges') <= Cardinality(merges)
+                 /\ (LastEv.op \in {"addrow", "addcol"} => Cardinality(merges') = Cardinality(merges))
+                 /\ {Area(x) : x \in merges'} \subseteq {Area(x) : x \in merges}]_vars
 \* rectangle sets tried by the model checker: every single rectangle of a 3x3 area, and every ordered pair of disjoint ones
 MCRectSets == {<<x>> : x \in AllRects(3, 3)} \cup {<<x, y>> : <<x, y>> \in {p \in AllRects(3, 3) \X AllRects(3, 3) : Disjoint(p[1], p[2])}}
 \* a smaller family for the quick generator: one rectangle of each shape class at a corner, the centre and an edge, plus two disjoint pairs
